@@ -1470,6 +1470,8 @@ def search_format(ck: Ck, name: str, n: int) -> None:
         if len(js) > 150:
             ck.seen((name, js))
         ck.hist('oracle_' + name, 'ok' if res is None else res[0])
+        ck.hist('names_' + name, ('colliding-under-casefold-or-strip' if colliding_names(spec) else 'no-collision')
+                + ('+deep-copied' if isinstance(spec, dict) and spec.get('copy') else ''))
         if name in ('vcd-text', 'sndscript', 'vmt') and (res is None or res[0] == 'read-error'):
             bb = U.brace_balance(fmt, spec)
             if bb is not None:
